@@ -254,6 +254,11 @@ class Prop:
                    "case (fixed: request capped by the grid's full ranks; adaptive: min(rmax, 1+(max_iter-1) kickrank) capped) and, "
                    "for adaptive ranks, the unfolding spectra have no singular values in (1e-12, 1e-4) relative (otherwise the "
                    "eps=1e-6 stopping rule legitimately stops before exactness)",
+                   "recovery additionally assumes the non-singularity hypothesis of DESIGN.md (C08_exact_recovery_partial), observed "
+                   "on the run: the target restricted to the returned nested index sets lsets[j] x rsets[j-1] has the rank of the "
+                   "j-th unfolding for every bond; runs with a degenerate skeleton (about 2-3% of the claims, all on targets with "
+                   "many zero entries / zero fibres, where about 40% of them do fail to recover on the pinned tree) are excused "
+                   "from the recovery clause only - interpolation, grid-only evaluation and min/max are unconditional",
                    "for-every-seed is sampled: a finite number of seeds per configuration, offset by VERIF_SEED",
                    "entries-only is observed on values: every tuple of arguments passed to the function equals the tuple of "
                    "entries of the given tensors at some common position"]
@@ -329,7 +334,7 @@ class Prop:
 
         for fname in sorted(DOMAIN_FUNCS):
             for N in (2, 3, 4, 5):
-                for _ in range(2 if quick else 12):
+                for _ in range(10 if quick else 70):
                     domain_case(N, fname)
         # ---- (b) functions of explicit tensors
         def tensors_case(N, fname, kinds_list=None, shape=None, rk=None, single=False, **tagx):
@@ -363,12 +368,12 @@ class Prop:
             tensors_case(N, "mul", [[("cp", False)] * N, [("tt", True)] * N])
         for fname in sorted(TENSOR_FUNCS):
             for N in (2, 3, 4, 5):
-                for _ in range(2 if quick else 10):
+                for _ in range(10 if quick else 70):
                     tensors_case(N, fname, single=rng.random() < 0.3)
         # several seeds on one configuration: the for-every-seed quantifier
         base_t = rand_tensor_json(rng, [4, 3, 4, 3], [("tt", False)] * 4, maxr=2)
         base_c = rand_tensor_json(rng, [3, 4, 3], [("cp", False), ("tt", True), ("cp", True)], maxr=2)
-        for s in range(15 if quick else 150):
+        for s in range(30 if quick else 300):
             for bt, rk in ((base_t, {"ranks_tt": 2}), (base_c, {}), (base_t, {"kickrank": 1})):
                 c = {"kind": "tensors", "seed": seed(), "tensors": [bt], "den": [1], "func": "id", "cross": dict(rk),
                      "function_arg": "vectors", "out2d": False, "single": False}
@@ -399,8 +404,6 @@ class Prop:
             else:
                 maxr = 1 if style == "rank1" else rng.choice([1, 2, 3])
                 tj = rand_tensor_json(rng, shape, kinds, maxr=maxr, lo=1 if pos else -2, hi=2 if pos else 2, maxs=2)
-                if style == "rank1":    # force all bonds to 1 also for CP modes
-                    tj = rand_tensor_json(rng, shape, [(("tt", k[1])) for k in kinds], maxr=1, lo=1 if pos else -2, hi=2, maxs=2)
             den = 1
             if need in ("unit", "openunit"):
                 m = float(np.abs(dense_np(tj)).max())
@@ -427,12 +430,17 @@ class Prop:
                                "rtruediv": rng.choice([1.0, 2.0, -3.0, 0.5, 1]), "truediv_scalar": rng.choice([2.0, -4.0, 0.5, 3])}[op]
             c["tags"] = {"kind": "op", "op": op, "style": style, "N": N, "shape": "x".join(map(str, shape)),
                          "formats": "|".join(tsig(t) for t in c["tensors"])}
+            # integer power of a tensor with negative entries: input class of a known finding of the pinned tree
+            c["tags"]["neg_base_int_pow"] = bool(op == "pow_int" and c["scalar"] not in (0, 1) and
+                                                 float(dense_np(c["tensors"][0]).min()) < 0)
             cases.append(c)
 
         for op in sorted(OPS):
             for style in ("tiny", "rank1", "additive"):
-                for _ in range(1 if quick else 6):
+                for _ in range(4 if quick else 24):
                     op_case(op, style)
+        for _ in range(6 if quick else 40):
+            op_case("pow_int", "tiny", N=rng.choice([2, 3, 4]))
         # ---- (d) minimum / maximum
         def minmax_case(N, src, api, zero_min=False):
             shape = rand_shape(N, maxpts=500)
@@ -456,12 +464,12 @@ class Prop:
             cases.append(c)
 
         for N in (2, 3, 4, 5):
-            for _ in range(6 if quick else 50):
+            for _ in range(20 if quick else 150):
                 minmax_case(N, "tensors", rng.choice(["wrappers", "direct"]), zero_min=rng.random() < 0.3)
-            for _ in range(2 if quick else 15):
+            for _ in range(6 if quick else 50):
                 minmax_case(N, "domain", rng.choice(["wrappers", "direct"]))
         # ---- (e) cross_forward on the stored index sets (TT cores only: cross_forward has no CP branch)
-        for _ in range(8 if quick else 60):
+        for _ in range(20 if quick else 150):
             N = rng.randint(2, 4); shape = rand_shape(N, maxpts=300)
             fname = rng.choice(["id", "affine", "add", "mul"])
             K = TENSOR_FUNCS[fname][0]
